@@ -30,7 +30,7 @@ UNPROVED = ["norm_p over R: non-negativity, homogeneity and norm_p = norm_1 / no
             "Minkowski (triangle inequality) and inf <= p <= 1 for general p are searched only",
             "all norm laws 'up to rounding' over f64 (searched with 1e-12 slack on data of moderate magnitude 1e-3..1e3; proved over R only); "
             "they FAIL on the real code for entries whose square overflows/underflows (findings/C15-norm-range.md, replayable, not in the default search)",
-            "powspace endpoints/monotonicity and norm_p depend on libm pow: tied by tolerance and searched, not proved",
+            "powspace / norm_p over f64 depend on libm pow: tied by tolerance (table of the calls) and searched; their theorems are over R with pow as the real power function",
             "Vector::random: length and range [0,1) observed only"]
 
 MANIFEST = dict(
@@ -39,7 +39,7 @@ MANIFEST = dict(
           "permutation; insertion sort -- the sorter the model is run with -- meets that contract on every total order, so "
           "vec_run_refines_Qc holds outright), elementwise_spec (+ - unary- scalar forms abs entry by entry, size guards), vdiv_spec, "
           "sum_slice_spec / product_slice_spec / sum_spec (value and exact guard conditions), dot bilinear/symmetric over a ring, linspace_ends "
-          "over a field and strict monotonicity over R, and over R: non-negativity, homogeneity, triangle inequality of "
+          "over a field and strict monotonicity over R, powspace_spec over R (ends, monotone), and over R: non-negativity, homogeneity, triangle inequality of "
           "norm_1/norm_inf/norm_2 (Cauchy-Schwarz) and norm_inf <= norm_2 <= norm_1; over IEEE binary64 (Flocq): dot_exact_float and "
           "sum_slice_exact_float (integer-valued f64 data below 2^53: the float instance returns exactly the integer value of the definition). Tie: the same definitions run by vm_compute "
           "against the implementation (Rat vs Qc exactly; f64/Complex bit-compared, libm-dependent norm_p/powspace by tolerance) "
